@@ -478,6 +478,43 @@ theorem restore_tasks_only (c : Cfg) (fs : List Path) (tasks : List Name) (s s' 
   · cases h
   · exact copyMap_frame c id _ fs s s' h p hp
 
+/-- `get_task` looks at the whole list: a file whose base name contains `task_<t>` for *some* listed
+(non-empty) task name is picked, whatever the position of `t` in the list. -/
+theorem getTask_of_mem (tasks : List Name) (base : Name) (hne : ∀ t ∈ tasks, t ≠ [])
+    (h : ∃ t ∈ tasks, isInfix (['t', 'a', 's', 'k', '_'] ++ t) base = true) : getTask tasks base = true := by
+  unfold getTask
+  split
+  · rename_i t ht
+    have := hne t (List.mem_of_find?_eq_some ht)
+    cases t <;> simp_all
+  · rename_i hnone
+    obtain ⟨t, ht, hi⟩ := h
+    have := List.find?_eq_none.mp hnone t ht
+    simp only [List.cons_append, List.nil_append] at hi
+    simp [hi] at this
+
+/-- **A task-restricted restore restores every requested task.** With `orig f` the bytes held by the
+backup, after `restore_backup(name, tasks)` every recorded file whose base name contains `task_<t>` for
+any `t` of the list is byte-identical to its backup copy (not only those of the first task). -/
+theorem restore_tasks_complete (c : Cfg) (fs : List Path) (tasks : List Name) (orig : Path → List Sym) (s s' : St)
+    (hout : ∀ f ∈ fs, ¬ c.bdir <+: c.dpath f)
+    (hback : ∀ f ∈ fs, get s (c.bpath f) = some (.reg (orig f)))
+    (hne : ∀ t ∈ tasks, t ≠ [])
+    (h : restore c fs tasks s = .ok s') :
+    ∀ f ∈ fs, (∃ t ∈ tasks, isInfix (['t', 'a', 's', 'k', '_'] ++ t) (f.getLastD []) = true) →
+      get s' (c.dpath f) = some (.reg (orig f)) := by
+  intro f hf hsel
+  simp only [restore] at h
+  split at h
+  · cases h
+  · obtain ⟨s1, hs1, hspec⟩ := copyMap_spec c id (picked tasks) fs s
+      (fun a ha a' _ => dpath_ne_bpath c a a' (hout a ha)) (fun a ha => ⟨_, hback a ha⟩)
+    rw [h] at hs1; cases hs1
+    have hp : picked tasks f = true := by
+      unfold picked
+      rw [getTask_of_mem tasks _ hne hsel, Bool.or_true]
+    exact hspec f hf hp _ (hback f hf)
+
 /-! ## 8. Remodel twice = remodel once -/
 
 theorem remodelCore_idempotent (c : Cfg) (T : List Sym → List Sym) (fs : List Path) (s s' : St)
